@@ -386,3 +386,50 @@ func ReportReplay(outcome string, fails any) {
 	}
 	Exit(1)
 }
+
+// ---- watchdog for totality checks ---------------------------------------------------------
+
+var guard struct {
+	mu    sync.Mutex
+	label string
+	since int64
+	on    bool
+}
+
+// Guard marks the case that is about to be executed. If one case stays active for more
+// than limitS seconds of real time the process records a non-termination violation and exits
+// (a Go function cannot be pre-empted from outside, so this is the explicit horizon).
+func (c *Ctx) Guard(label string) {
+	guard.mu.Lock()
+	guard.label = label
+	guard.since = RealNow()
+	guard.mu.Unlock()
+}
+
+// StartWatchdog starts the horizon watchdog (call once, outside synctest bubbles).
+func (c *Ctx) StartWatchdog(prop string, limitS int) {
+	guard.mu.Lock()
+	if guard.on {
+		guard.mu.Unlock()
+		return
+	}
+	guard.on = true
+	guard.mu.Unlock()
+	go func() {
+		for {
+			// real sleep via syscall (time.Sleep is fine outside bubbles)
+			var ts syscall.Timespec
+			ts.Sec = 1
+			syscall.Nanosleep(&ts, nil)
+			guard.mu.Lock()
+			label, since := guard.label, guard.since
+			guard.mu.Unlock()
+			if label != "" && RealNow()-since > int64(limitS)*1e9 {
+				c.Violate(prop+" non-terminating call: "+label, fmt.Sprintf("no return after %d s", limitS), map[string]any{"property": prop, "case": label})
+				c.Cap("aborted after a non-terminating call")
+				c.Finish()
+				Exit(0)
+			}
+		}
+	}()
+}
